@@ -38,6 +38,12 @@ class ArithmeticOp(PureExec):
             and self.ops[1].value_type.group & VTGroup.FLOAT
         ):
             return f"F{code}HEX_GET_INSN_RMODE(hi), {self.ops[0].il_read()}, {self.ops[1].il_read()})"
+        if (
+            self.arith_type in [ArithmeticType.DIV, ArithmeticType.MOD]
+            and self.ops[0].value_type.signed
+        ):
+            # DIV and MOD are the unsigned operations of RzIL.
+            code = f"S{code}"
         return f"{code}{self.ops[0].il_read()}, {self.ops[1].il_read()})"
 
     def __str__(self):
